@@ -10,8 +10,8 @@ from ..runner import Outcome, fail
 ID = 'C01'
 LEVEL = 'exploration'
 RULE = ('Hypothesis cases = (init settings from the cipher x hash x chunk-bounds lattice, concurrency 1..16, backend '
-        'flavour, file tree with boundary sizes / shared blocks / odd names / symlinks, argument list with repeats and '
-        'overlaps, pre-populated restore target). Oracle: recorded set computed by the harness from the tree alone; '
+        'flavour, file tree with boundary sizes / shared blocks / odd names (non-UTF-8, not NFC-normalised) / symlinks, argument list with repeats, '
+        'overlaps and siblings whose names are string prefixes of one another, pre-populated restore target). Oracle: recorded set computed by the harness from the tree alone; '
         'after snapshot + restore by a fresh Repository the target holds exactly expected files (bytes, mtime_ns) plus '
         'untouched unrelated files, result.files is the expected multiset, and an independent reader reassembles the '
         'same bytes from the raw objects. Non-trivial: some file spans >=2 chunks or some chunk covers >=2 files.')
@@ -90,6 +90,18 @@ def cases(draw):
                 symlinks.append({'path': lp, 'target': tf, 'relative': draw(st.booleans())})
     candidates = ['.'] + alldirs + [f['path'] for f in files] + [s_['path'] for s_ in symlinks]
     args = draw(st.lists(st.sampled_from(candidates), min_size=1, max_size=4))
+    if files and draw(st.integers(0, 3)) == 0:
+        # siblings whose names extend one another as strings without being inside one another (photos / photos-2019, notes /
+        # notes.txt), both given as arguments
+        base = draw(st.sampled_from(alldirs + [f['path'] for f in files]))
+        sib = base + draw(st.sampled_from(['-2019', '.bak', '2', ' ', '.']))
+        if sib not in used and sib not in alldirs:
+            used.add(sib)
+            if draw(st.booleans()):
+                files.append({'path': sib, 'content': draw(gen.content_spec(mn, mx)), 'mtime_ns': 10 ** 18 + 11})
+            else:
+                files.append({'path': sib + '/finside', 'content': draw(gen.content_spec(mn, mx)), 'mtime_ns': 10 ** 18 + 13})
+            args = draw(st.permutations([base, sib])) + args[:2]
     target = []
     for f in files:
         k = draw(st.sampled_from(['none', 'none', 'none', 'longer', 'shorter', 'different', 'same', 'empty']))
@@ -183,6 +195,12 @@ def _run(case, work):
     classes.append('concurrency:1' if n == 1 else ('concurrency:>8' if n > 8 else 'concurrency:2-8'))
     if len(set(case['args'])) < len(case['args']):
         classes.append('args:repeat')
+    if any(a != b and b.startswith(a) and not b.startswith(a + '/') and a != '.' for a in case['args'] for b in case['args']):
+        classes.append('args:string-prefix-siblings')
+    import unicodedata
+    if any(unicodedata.normalize('NFC', f['path'].encode('utf-8', 'surrogateescape').decode('utf-8', 'replace')) !=
+           f['path'].encode('utf-8', 'surrogateescape').decode('utf-8', 'replace') for f in case['files']):
+        classes.append('name:not-nfc')
     if len(expected) and all(len(v[0]) == 0 for v in exp_content.values()):
         classes.append('only-empty-files')
     if any(len(v[0]) == 0 for v in exp_content.values()):
